@@ -285,6 +285,10 @@ class Program:
                 self._add_function(st, mod, ci, None)
             elif isinstance(st, ast.Assign):
                 for t in st.targets:
+                    if isinstance(t, (ast.Tuple, ast.List)) and isinstance(st.value, (ast.Tuple, ast.List)) and len(t.elts) == len(st.value.elts):
+                        for te, ve in zip(t.elts, st.value.elts):       # MIN, MAX = 0, 1
+                            if isinstance(te, ast.Name):
+                                ci.class_assigns[te.id] = ve
                     if isinstance(t, ast.Name):
                         ci.class_assigns[t.id] = st.value
                         if t.id == '__slots__' and isinstance(st.value, (ast.List, ast.Tuple)):
